@@ -1,55 +1,107 @@
-(* C07 -- every package derived by any history of Thermo(...), subset, extended, ideal, interleaved with ANY
-   changes of the chemicals, keeps its mixture models aligned with its own chemicals and evaluates their
-   CURRENT functors. *)
-From Coq Require Import List Bool.
+(* C07 -- property packages: order of the mixture models (always the package's own), and whether they evaluate the
+   chemicals' CURRENT functors (only while no member's functors were rebuilt since the mixture was derived). *)
+From Coq Require Import List Bool Lia.
 From V Require Import C07.Gen_Packages C07.Packages.
 Import ListNotations.
 
 Section Facts.
   Variable St : Type.
+  Variable same : nat -> St -> St -> bool.
+  Notation pstep := (pstep St same).
+  Notation prun := (prun St same).
 
-  Definition aligned (p : pkg St) : Prop :=
-    map fst (p_models p) = p_chems p /\ Forall (fun e => snd e = None) (p_models p).
+  (* ---- order: index i of the mixture is a model of the i-th chemical of the package, after ANY history ---- *)
+  Definition ordered (p : pkg St) : Prop := map fst (p_models p) = p_chems p.
 
-  Lemma build_aligned st cs : aligned (mkPkg false cs (build_models St st cs)) /\
-                              forall b, aligned (mkPkg b cs (build_models St st cs)).
-  Proof.
-    assert (A : forall b, aligned (mkPkg b cs (build_models St st cs))).
-    { intros b. unfold aligned, build_models, mixture_models_live, mixture_models_of. simpl. split.
-      - rewrite map_map. simpl. apply map_id.
-      - apply Forall_forall. intros e He. apply in_map_iff in He. destruct He as (c & <- & _). reflexivity. }
-    split; [apply A | exact A].
-  Qed.
+  Lemma build_ordered b st cs : ordered (mkPkg b cs (build_models St st cs)).
+  Proof. unfold ordered, build_models, mixture_models_of. simpl. rewrite map_map. simpl. apply map_id. Qed.
 
-  Lemma subset_aligned st p sel : aligned (subset_of St st p sel).
+  Lemma subset_ordered st p sel : ordered (subset_of St st p sel).
   Proof.
     unfold subset_of, IdealThermo_subset_rebuilds_mixture, Thermo_subset_rebuilds_mixture.
-    destruct (p_ideal p); apply build_aligned.
+    destruct (p_ideal p); apply build_ordered.
   Qed.
 
-  Lemma pstep_aligned s o : Forall aligned (snd s) -> Forall aligned (snd (pstep St s o)).
+  Lemma pstep_ordered s o : Forall ordered (snd s) -> Forall ordered (snd (pstep s o)).
   Proof.
     destruct s as [st ps]. intros F. simpl in F. destruct o as [cs|i sel|i extra|i|f]; simpl.
-    - apply Forall_app; split; [exact F|]. constructor; [apply build_aligned | constructor].
+    - apply Forall_app; split; [exact F|]. constructor; [apply build_ordered | constructor].
     - destruct (nth_error ps i) as [p|]; [|exact F]. simpl. apply Forall_app; split; [exact F|].
-      constructor; [apply subset_aligned | constructor].
+      constructor; [apply subset_ordered | constructor].
     - destruct (nth_error ps i) as [p|]; [|exact F]. simpl. apply Forall_app; split; [exact F|].
-      constructor; [apply subset_aligned | constructor].
+      constructor; [apply subset_ordered | constructor].
     - destruct (nth_error ps i) as [p|] eqn:Hi; [|exact F]. simpl. apply Forall_app; split; [exact F|].
       constructor; [|constructor].
-      assert (A : aligned p) by (rewrite Forall_forall in F; apply F; eapply nth_error_In; eauto).
+      assert (A : ordered p) by (rewrite Forall_forall in F; apply F; eapply nth_error_In; eauto).
       destruct (p_ideal p); [exact A|]. unfold ideal_shares_chemicals_and_mixture. exact A.
-    - exact F.
+    - apply Forall_forall. intros p Hp. apply in_map_iff in Hp. destruct Hp as (q & <- & Hq).
+      rewrite Forall_forall in F. specialize (F q Hq). unfold ordered in *. simpl. rewrite map_map.
+      rewrite <- F. apply map_ext. intros e. destruct (snd e) as [s0|]; [|reflexivity].
+      destruct (same (fst e) s0 st && same (fst e) st (f st)); reflexivity.
   Qed.
 
-  Lemma prun_aligned ops : forall s, Forall aligned (snd s) -> Forall aligned (snd (prun St s ops)).
+  Lemma packages_ordered st0 ops p : In p (snd (prun (st0, []) ops)) -> map fst (p_models p) = p_chems p.
   Proof.
-    induction ops as [|o ops IH]; intros s F; simpl; [exact F|]. apply IH. apply pstep_aligned. exact F.
+    assert (G : forall ops s, Forall ordered (snd s) -> Forall ordered (snd (prun s ops))).
+    { induction ops0 as [|o ops0 IH]; intros s F; simpl; [exact F|]. apply IH. apply pstep_ordered. exact F. }
+    intros Hin. pose proof (G ops (st0, []) (Forall_nil _)) as F. rewrite Forall_forall in F. exact (F p Hin).
   Qed.
 
-  Lemma packages_aligned st0 ops p : In p (snd (prun St (st0, []) ops)) ->
-    map fst (p_models p) = p_chems p /\ Forall (fun e => snd e = None) (p_models p).
+  (* ---- currency, partial: as long as the chemicals are not changed, every package evaluates their current functors ---- *)
+  Hypothesis same_refl : forall c s, same c s s = true.
+
+  Definition tracking (cur : St) (p : pkg St) : Prop := Forall (entry_tracks St same cur) (p_models p).
+
+  Lemma build_tracking b st cs : tracking st (mkPkg b cs (build_models St st cs)).
   Proof.
-    intros Hin. pose proof (prun_aligned ops (st0, []) (Forall_nil _)) as F. rewrite Forall_forall in F. exact (F p Hin).
+    unfold tracking, build_models. simpl. apply Forall_forall. intros e He. apply in_map_iff in He.
+    destruct He as (c & <- & _). unfold entry_tracks. simpl. destruct mixture_models_live; first [exact I | apply same_refl].
+  Qed.
+
+  Lemma pstep_tracking s o : no_chem St o -> Forall (tracking (fst s)) (snd s) ->
+    fst (pstep s o) = fst s /\ Forall (tracking (fst s)) (snd (pstep s o)).
+  Proof.
+    destruct s as [st ps]. intros NC F. simpl in F. destruct o as [cs|i sel|i extra|i|f]; simpl; try contradiction.
+    - split; [reflexivity|]. apply Forall_app; split; [exact F|]. constructor; [apply build_tracking | constructor].
+    - destruct (nth_error ps i) as [p|]; [|split; [reflexivity | exact F]]. simpl. split; [reflexivity|].
+      apply Forall_app; split; [exact F|]. constructor; [|constructor].
+      unfold subset_of, IdealThermo_subset_rebuilds_mixture, Thermo_subset_rebuilds_mixture. destruct (p_ideal p); apply build_tracking.
+    - destruct (nth_error ps i) as [p|]; [|split; [reflexivity | exact F]]. simpl. split; [reflexivity|].
+      apply Forall_app; split; [exact F|]. constructor; [|constructor].
+      unfold subset_of, IdealThermo_subset_rebuilds_mixture, Thermo_subset_rebuilds_mixture. destruct (p_ideal p); apply build_tracking.
+    - destruct (nth_error ps i) as [p|] eqn:Hi; [|split; [reflexivity | exact F]]. simpl. split; [reflexivity|].
+      apply Forall_app; split; [exact F|]. constructor; [|constructor].
+      assert (A : tracking st p) by (rewrite Forall_forall in F; apply F; eapply nth_error_In; eauto).
+      destruct (p_ideal p); [exact A|]. unfold ideal_shares_chemicals_and_mixture. exact A.
+  Qed.
+
+  Lemma packages_track_without_chemical_changes st0 ops p :
+    Forall (no_chem St) ops -> In p (snd (prun (st0, []) ops)) ->
+    Forall (entry_tracks St same (fst (prun (st0, []) ops))) (p_models p).
+  Proof.
+    assert (G : forall ops s, Forall (no_chem St) ops -> Forall (tracking (fst s)) (snd s) ->
+                fst (prun s ops) = fst s /\ Forall (tracking (fst s)) (snd (prun s ops))).
+    { induction ops0 as [|o ops0 IH]; intros s NC F; simpl; [split; [reflexivity | exact F]|].
+      inversion NC as [|? ? No NC']; subst.
+      destruct (pstep_tracking s o No F) as [E F'].
+      destruct (IH (pstep s o) NC') as [E2 F2]; [rewrite E; exact F'|].
+      split; [rewrite E2; exact E | rewrite <- E; exact F2]. }
+    intros NC Hin. destruct (G ops (st0, []) NC (Forall_nil _)) as [E F].
+    rewrite E. rewrite Forall_forall in F. exact (F p Hin).
   Qed.
 End Facts.
+
+(* ---- currency, refuted in general: a package is built, then a member's functors are rebuilt ---- *)
+(* store state = how often chemical 0 was rebuilt; its functor objects are the same iff that number is the same *)
+Definition wit_same (c : nat) (s s' : nat) : bool := Nat.eqb s s'.
+Definition wit_ops : list (pop nat) := [PNew [0%nat]; PChem S].
+
+Lemma witness_package_is_stale :
+  exists p e, In p (snd (prun nat wit_same (0%nat, []) wit_ops)) /\ In e (p_models p) /\
+              ~ entry_tracks nat wit_same (fst (prun nat wit_same (0%nat, []) wit_ops)) e.
+Proof.
+  exists (mkPkg false [0%nat] [(0%nat, Some 0%nat)]), (0%nat, Some 0%nat).
+  unfold wit_ops, prun, pstep, build_models, mixture_models_live, mixture_models_of. simpl.
+  split; [left; reflexivity|]. split; [left; reflexivity|].
+  unfold entry_tracks, wit_same. simpl. discriminate.
+Qed.
